@@ -308,6 +308,18 @@ func resolveInTree(tree map[string]fileState, root, cwdRel, printed string) (str
 			}
 			switch st.Kind {
 			case "l":
+				// the LAST component is the entry the line names (lstat view: a save renames a
+				// new file over the link itself, it does not write through it); only links on
+				// the way are followed
+				last := true
+				for _, x := range comps[i+1:] {
+					if x != "" && x != "." {
+						last = false
+					}
+				}
+				if last {
+					continue
+				}
 				links++
 				if links > 20 {
 					return false
